@@ -88,7 +88,7 @@ C("C09", "TestC09", P(800), P(5000, 16, 1500),
   assumptions=[DOMAIN, "handles act one after another (no overlap)"])
 
 C("C12", "TestC12", P(1500), P(8000, 16, 1500),
-  rule="rapid-generated histories of 3..25 transactions over a pool of 19 names rich in parent/child/sibling relations, or (half of the cases) names grown from 1..4 components over {a,b,c,ab}, plus 10 invalid names; each transaction 1..4 additions (value/peeled/symref) and deletions; "
+  rule="rapid-generated histories of 3..25 transactions over a pool of 19 names rich in parent/child/sibling relations, or (half of the cases) names grown from 1..4 components over {a,b,c,ab} and components that continue a sibling with a byte sorting before or right after the slash (a.b, a-, a+c, a!, a0, b., ..b: such names sort between a name and its children), plus 10 invalid names; each transaction 1..4 additions (value/peeled/symref) and deletions; "
        "submitted through Add and through 2..3-table Additions (committed or abandoned), name check on (4/5) or off; "
        "oracle from the property's wording: accepted iff every added name is valid and (live - deletions) + additions has no pair x, x/...; both directions; live set re-read and re-checked after every step; view == model; "
        "non-trivial = a transaction with a deletion and an addition related by prefix, or a multi-table Addition; distinct = hash of the case JSON",
@@ -134,7 +134,7 @@ C("C04", "TestC04", P(3000), P(8000, 16, 2400), pkg="conc", flavour="inst",
   exhaustive_part="thorough tier: single pre-emption of every ordered pair of operation kinds at every filesystem call, double pre-emption of (CompactAll, Add, Add)")
 
 C("C05", "TestC05", P(2500), P(8000, 16, 2400), pkg="conc", flavour="inst",
-  rule="engine of C04 with 1..4 processes, optionally 1..2 processes killed in front of a drawn filesystem call, and (1/4 of the cases) File.Write as an additional yield point; "
+  rule="engine of C04 with 1..4 processes, optionally 1..2 processes killed in front of a drawn filesystem call, and (1/4 of the cases) File.Write as an additional yield point; families: disjoint range compactions on a deep stack; cancelling transactions; a garbage-collecting step inside a compaction (a second handle's Clean/Close/read/open/Add run entirely inside the window in which a compaction has given the list lock back, the compactor pre-empted k filesystem calls into it); multi-table Additions whose Close comes only after the process's next operation; "
        "oracle M5 after EVERY filesystem step: each name in tables.list exists, decodes as a complete well-formed table of the stack's hash id (specdec: header==footer, CRC, all sections), limits strictly increasing; "
        "a pass-through NewStack probe every 7 steps and at the end must succeed and read; "
        "non-trivial = the list changed at least twice while another process was mid-operation, or a process was killed after a rename of its operation; distinct = hash of the case JSON",
@@ -167,7 +167,7 @@ C("C10", "TestC10", P(3000), P(8000, 16, 2400), pkg="conc", flavour="inst",
 C("C16", "TestC16", P(3000), P(8000, 16, 2400), pkg="conc", flavour="inst",
   rule="a fixed slice of 192 enumerated single pre-emption schedules, then the engine of C04 with 1..4 processes whose programs include deliberately failing operations (Add with an invalid ref name, Add with limits below the next update index, abandoned Additions, Adds through stale handles, compactions that lose lock races, Close/Clean on empty stacks); "
        "a 'cancelling transactions' family (three names, half deletions, no unique ref) so that compaction results and whole stacks become empty; second family (1/3 of the multi-process cases): process 0 is killed at a drawn filesystem call and a survivor ends with Clean and Close (M5 keeps running: no listed table may disappear; Clean may only fail with ErrLockFailure; no panic); "
-       "oracle M16: when a call returns, no lock or temporary file created by that handle exists; when all processes are done and none was killed the directory is exactly tables.list + the tables it names; "
+       "oracle M16: when a call returns, no lock or temporary file created by that handle exists; when all processes are done and none was killed the directory is exactly tables.list + the tables it names (both directions: no other file, and every listed table present); multi-table Additions are closed right after Commit or (1 in 3) only after the process's next operation; "
        "non-trivial = a case with a failed operation or a lost lock race; distinct = hash of the case JSON",
   technique="property-based testing over schedules and failure paths: creator-tracking monitor on the filesystem-call trace, directory audit at every idle point",
   level_text="Generated interleavings including the failure paths that leak; the audit runs at every operation return and at global quiescence. " + BOUNDED,
@@ -176,7 +176,7 @@ C("C16", "TestC16", P(3000), P(8000, 16, 2400), pkg="conc", flavour="inst",
   exhaustive_part="thorough tier: the C04 pre-emption enumerations re-run with the M16 monitor")
 
 C("C06", "TestC06", P(400), P(1500, 16, 3000), pkg="conc", flavour="inst", level="fault_enumeration",
-  rule="rapid-generated (initial stack of 0..6 transactions incl. tombstones and logs, one target operation from {Add, multi-table Addition, abandoned Addition, CompactAll, CompactAll with expiry, AutoCompact, Clean, Close}, auto-compaction on/off, optionally a surviving second process with 1..3 operations which in half of those cases opens and reads BEFORE the target operation starts and continues after the kill on that outdated handle, with Clean/Close/compactions weighted up); "
+  rule="rapid-generated (initial stack of 0..6 transactions incl. tombstones and logs, one target operation from {Add, multi-table Addition, abandoned Addition, CompactAll, CompactAll with expiry, AutoCompact, Clean, Close}, auto-compaction on/off, optionally a surviving second process with 1..3 operations which in half of those cases opens and reads BEFORE the target operation starts and continues after the kill on that outdated handle, with Clean/Close/compactions weighted up; survivors also run expiring and arbitrary-range compactions); "
        "the operation is first run uncrashed to count its n filesystem calls and to obtain the states before/after (decoded from disk by specdec); then for EVERY k in 0..n-1 the identical initial state is rebuilt and the process is killed in front of call k; "
        "oracle: the committed state at the kill is exactly before or exactly after; a fresh NewStack opens and reads it (M5 after every step, M4 for every later transition, M10 for the survivor); survivor writes fail only with ErrLockFailure; "
        "evaluations = (case, crash point) executions; non-trivial = crash point after the first rename of the run; distinct = (case hash, k)",
@@ -198,7 +198,7 @@ C("C19", "TestC19", P(300, timeout=900), P(800, 16, 2400), race=True,
 C("C18", "TestC18", P(20000, timeout=900), P(100000, 16, 3000), fuzz={"target": "FuzzReader", "pkg": "checks", "seconds": 300},
   rule="rapid-generated small valid tables of every layout, damaged by 1..4 edits: bit flips, byte sets (hostile constants), truncations, splices from a second table, byte insertions, and overwrites of structural fields located with specdec "
        "(version, block size, hash id, block type/length, first records, restart counts/offsets, footer offsets) with 1/2/3/8-byte hostile words, and 'redirects' (the position varint of an index entry or object record rewritten to the offset of another or the same block, same encoded length: cycles and type confusion in the index descent) and hostile varints (huge / over-long encodings over every varint field the independent decoder finds in the first and last records of a block: prefix/suffix lengths, update-index deltas, string lengths, counts, positions); in a third of the cases with logs the last log block is inflated, edited the same way (its varint fields and restart table as targets), deflated again and put back with block_len, log-index offset and CRC adjusted, so that damage reaches the log record decoder behind the zlib checksum; the footer copy and CRC are repaired in 5/6 of the cases so that the block decoders are reached; "
-       "target: NewReader, full scans, SeekRef/SeekLog/RefsFor for original and foreign keys, the same through one- and two-table NewMerged; "
+       "target: NewReader, full scans, SeekRef/SeekLog/RefsFor for original and foreign keys, the same through one- and two-table NewMerged, and in 1 case of 8 through the file block source and as a member of a stack directory (NewStack, the stack view, the validation reads of an Add, the reads of CompactAll; damaged table listed first or last); "
        "oracle: every call returns records or an error - a panic, an iterator yielding more records than the file has bytes, more than 64 MiB allocated for a KiB-sized file, or no return within 60 s is a violation; "
        "thorough additionally runs the native coverage-guided fuzzer on the same oracle (inputs starting with 'L' are wrapped as the inflated content of a log block of a valid table); non-trivial = the damaged file still opens; distinct = hash of the case JSON",
   technique="mutation-based property testing (rapid) plus coverage-guided fuzzing (go test -fuzz) with a crash/termination/allocation oracle",
